@@ -262,6 +262,21 @@ fn strat_to_json(s: Strat) -> Value {
     }
 }
 
+fn strat_from_json(v: &Value) -> Strat {
+    let n = v[1].as_u64().unwrap_or(0) as u32;
+    match v[0].as_str().unwrap_or("uniform") {
+        "pct" => Strat::Pct(n),
+        "sticky" => Strat::Sticky(n),
+        "child_first" => Strat::ChildFirst,
+        "parent_first" => Strat::ParentFirst,
+        "starve_one" => Strat::StarveOne(n),
+        "release_eager" => Strat::ReleaseEager,
+        "release_lazy" => Strat::ReleaseLazy,
+        "release_order" => Strat::ReleaseOrder(v[1].as_str().and_then(|s| s.parse().ok()).unwrap_or(0)),
+        _ => Strat::Uniform,
+    }
+}
+
 fn log_to_json(obs: &Obs, limit: usize) -> Value {
     let mut out = Vec::new();
     for r in obs.log.iter().take(limit) {
@@ -1161,6 +1176,9 @@ fn run_cmd(progs: &[&'static Prog], args: &[String]) {
             let plans = plans_for(mode, check_name, prog, kind, b, seed, &mut st);
             let nsched = if kind.is_concurrent() { b.scheds } else { 1 };
             let mut pair_failed = false;
+            // every run of this (program, kind) executed so far in this process: an expansion that keeps state across
+            // evaluations (a static in the generated code) makes a violation depend on this history
+            let mut history: Vec<Value> = Vec::new();
             for (pi, plan) in plans.iter().enumerate() {
                 st.plans += 1;
                 let ph = hash_all(&[pi as u64, plan.input_seed, plan.salt, plan.fail.iter().map(|(a, b)| (*a as u64) << 20 ^ *b as u64).sum::<u64>(), plan.panic.map(|(a, b)| (a as u64) << 20 ^ b as u64).unwrap_or(0), plan.deps.len() as u64]);
@@ -1169,6 +1187,9 @@ fn run_cmd(progs: &[&'static Prog], args: &[String]) {
                     let strat = if kind.is_concurrent() { Strat::from_seed(rs, kind.is_async()) } else { Strat::ParentFirst };
                     set_in_flight(check_name, prog, kind, plan, strat, rs, seed, &tier);
                     let ev = evaluate(check_name, prog, kind, plan, strat, rs, None);
+                    if history.len() < 400 {
+                        history.push(json!({"plan": plan_to_json(plan), "strategy": strat_to_json(strat), "run_seed": rs.to_string()}));
+                    }
                     st.ref_runs += if plan.panic.is_some() { 2 } else { 1 };
                     if !ev.reachable {
                         st.unreachable_panics += 1;
@@ -1183,6 +1204,10 @@ fn run_cmd(progs: &[&'static Prog], args: &[String]) {
                         let (mev, attempts) = minimise(check_name, prog, &mut f);
                         let reproduced = mev.codes.iter().any(|(c, _)| *c == f.code);
                         let mut j = failure_to_json(check_name, prog, &f, &mev, attempts, seed, &tier);
+                        // the failing run itself is the last history entry: keep only what preceded it
+                        let mut h = history.clone();
+                        h.pop();
+                        j["history"] = Value::Array(h);
                         if !reproduced {
                             j["type"] = json!("harness_error");
                             j["message"] = json!(format!("violation {} did not reproduce when its own decision list was replayed: {}", f.code, f.msg));
@@ -1252,6 +1277,19 @@ fn replay_cmd(progs: &[&'static Prog], args: &[String]) {
         let ev = evaluate(&check, prog, kind, &plan, strat, seed, None);
         println!("{}", json!({"type": "replay", "status": "not_reproduced", "observed": ev.obs.outcome.short()}));
         std::process::exit(0);
+    }
+    // --hist-last K: first re-execute the last K runs the failing process had made of this (program, kind) before the
+    // failing one (same plans, schedules re-proposed from their run seeds): state kept by the expansion across evaluations
+    let hist_last: usize = arg(args, "--hist-last").and_then(|s| s.parse().ok()).or_else(|| v["history_needed"].as_u64().map(|x| x as usize)).unwrap_or(0);
+    if hist_last > 0 {
+        if let Some(h) = v["history"].as_array() {
+            let from = h.len().saturating_sub(hist_last);
+            for e in &h[from..] {
+                let hp = plan_from_json(&e["plan"]);
+                let hs: u64 = e["run_seed"].as_str().and_then(|s| s.parse().ok()).unwrap_or(0);
+                let _ = evaluate(&check, prog, kind, &hp, strat_from_json(&e["strategy"]), hs, None);
+            }
+        }
     }
     let ev = evaluate(&check, prog, kind, &plan, Strat::Uniform, seed, Some(decisions));
     let has = ev.codes.iter().any(|(c, _)| *c == code);
